@@ -158,6 +158,8 @@ type c20Call struct {
 	Skew    int          `json:"skew"`
 	Dist    int          `json:"dist"`
 	Mut     int          `json:"mut"`
+	SibDig  int          `json:"sib_digits,omitempty"` // != 0: submit the genuine code of the counter under THIS code length instead
+	FracP   float64      `json:"frac_period,omitempty"` // fraction added to the period argument alone (Frac is added to all numeric arguments)
 	Type    string       `json:"type"`
 	Issuer  string       `json:"issuer"`
 	Account string       `json:"account"`
@@ -186,11 +188,11 @@ func (c c20Call) args(code string) []any {
 	case "generateHOTP":
 		return []any{secret, num(c.N, c.Frac), c.Dig, c.Alg}
 	case "generateTOTP":
-		return []any{secret, num(c.N, c.Frac), c.Dig, c.Alg, num(uint64(c.Period), c.Frac)}
+		return []any{secret, num(c.N, c.Frac), c.Dig, c.Alg, num(uint64(c.Period), c.Frac+c.FracP)}
 	case "validateHOTP":
 		return []any{secret, code, num(c.N, c.Frac), c.Dig, c.Alg, num(uint64(c.Skew), c.Frac)}
 	case "validateTOTP":
-		return []any{secret, code, num(c.N, c.Frac), c.Dig, c.Alg, num(uint64(c.Skew), c.Frac), num(uint64(c.Period), c.Frac)}
+		return []any{secret, code, num(c.N, c.Frac), c.Dig, c.Alg, num(uint64(c.Skew), c.Frac), num(uint64(c.Period), c.Frac+c.FracP)}
 	case "generateOTPURL":
 		return []any{c.Type, c.Issuer, c.Account, secret, c.Dig, c.Alg}
 	}
@@ -261,6 +263,9 @@ func checkC20(c c20Case) verdict {
 		code := ""
 		if strings.HasPrefix(call.Fn, "validate") {
 			code = mutate(ref.MustHOTP(call.Key, centre+uint64(int64(call.Dist)), d, a), call.Mut)
+			if call.SibDig != 0 && call.SibDig != d {
+				code = ref.MustHOTP(call.Key, centre+uint64(int64(call.Dist)), call.SibDig, a)
+			}
 		}
 		args := call.args(code)
 		labels = append(labels, "fn="+call.Fn)
@@ -355,7 +360,7 @@ func checkC20(c c20Case) verdict {
 }
 
 var c20Main = newPart("C20", "calls",
-	"rapid: call lists (a pure function of the seed) executed by Node against the wasm module built from the working tree and loaded through otp-js/src/index.js; each call is made via globalThis.<name> AND via the object the package exports, followed by a well-formed probe; arguments: counters/timestamps 0..2^53 (boundaries 2^31, 2^32, 2^53), fractional numbers (truncated), digits '6','8','9','10' and unknown spellings, three hashes and unknown spellings, periods 1..3600, skews 0..10, codes at window distance -(s+2)..+(s+2) and edited; malformed: every argument position x {undefined, null, NaN, -1, -1.5, 1e300, 2^63, +-Infinity, true, {}, [], a BigInt, a boxed String / Number object, a Symbol, a function, a Date, wrong-kind string/number, empty string}, too few / too many arguments, skew 11, period 0; oracle: native library AND independent reference for well-formed calls, 'error:' string for malformed ones, probe still correct; non-trivial = distance != 0 or digits != '6' or edited code or fractional number or malformed",
+	"rapid: call lists (a pure function of the seed) executed by Node against the wasm module built from the working tree and loaded through otp-js/src/index.js; each call is made via globalThis.<name> AND via the object the package exports, followed by a well-formed probe; arguments: counters/timestamps 0..2^53 (boundaries 2^31, 2^32, 2^53), fractional numbers (truncated; a quarter of the lists are related calls under one secret and parameter set with fractions on the time and on the period independently), digits '6','8','9','10' and unknown spellings, three hashes and unknown spellings, periods 1..3600, skews 0..10, codes at window distance -(s+2)..+(s+2) and edited; malformed: every argument position x {undefined, null, NaN, -1, -1.5, 1e300, 2^63, +-Infinity, true, {}, [], a BigInt, a boxed String / Number object, a Symbol, a function, a Date, wrong-kind string/number, empty string}, too few / too many arguments, skew 11, period 0; oracle: native library AND independent reference for well-formed calls, 'error:' string for malformed ones, probe still correct; non-trivial = distance != 0 or digits != '6' or edited code or fractional number or malformed",
 	checkC20)
 
 func drawC20Call(t *rapid.T) c20Call {
@@ -392,6 +397,9 @@ func drawC20Call(t *rapid.T) c20Call {
 	if strings.HasPrefix(c.Fn, "validate") {
 		c.Dist = rapid.IntRange(-c.Skew-2, c.Skew+2).Draw(t, "dist")
 		c.Mut = rapid.SampledFrom([]int{0, 0, 0, 0, 1, 2, 3, 4, 5, 6, 7}).Draw(t, "mut")
+		if rapid.IntRange(0, 5).Draw(t, "sibDigQ") == 0 {
+			c.SibDig = rapid.SampledFrom([]int{6, 8, 9, 10, 7}).Draw(t, "sibDig")
+		}
 		centre := c.N
 		if c.Fn == "validateTOTP" {
 			if rapid.IntRange(0, 3).Draw(t, "nearZero") == 0 && c.Skew > 0 {
@@ -459,6 +467,29 @@ func TestC20_Calls(t *testing.T) {
 	c20Main.rapid(t, ev.Pick(1_500, 30_000), func(t *rapid.T) c20Case {
 		n := rapid.IntRange(1, 8).Draw(t, "n")
 		var c c20Case
+		if rapid.IntRange(0, 3).Draw(t, "related") == 0 {
+			// related calls: one secret, one parameter set, nearby instants / counters, fractions on the time and on the period
+			// independently (a cache keyed by values derived from the raw JavaScript numbers answers one call with another's result)
+			first := drawC20Call(t)
+			first.BadPos, first.Arity, first.Mut, first.SibDig, first.Dist = -1, 0, 0, 0, 0
+			first.Period = rapid.SampledFrom([]int{30, 30, 31, 60}).Draw(t, "relPeriod")
+			for i := 0; i < n+1; i++ {
+				x := first
+				x.Fn = rapid.SampledFrom([]string{"generateTOTP", "generateTOTP", "validateTOTP", "generateHOTP"}).Draw(t, "relFn")
+				x.N = uint64(rapid.IntRange(0, 400).Draw(t, "relN"))
+				x.Frac = rapid.SampledFrom([]float64{0, 0, 0.5, 0.999}).Draw(t, "relFrac")
+				x.FracP = 0
+				if x.Frac < 0.4 {
+					x.FracP = rapid.SampledFrom([]float64{0, 0.5, 0.25}).Draw(t, "relFracP")
+				}
+				if x.Fn == "validateTOTP" {
+					x.Skew = 0
+					x.N += uint64(x.Period) * 3
+				}
+				c.Calls = append(c.Calls, x)
+			}
+			return c
+		}
 		for i := 0; i < n; i++ {
 			c.Calls = append(c.Calls, drawC20Call(t))
 		}
